@@ -50,8 +50,15 @@ def make_case(rng, mode: str, max_len: int = 30):
     stmts = gen.statements(rng, n, arity, mode)
     events = [("stmt", s) for s in stmts]
     if rng.random() < 0.3:
-        for prefix, iri in workloads.bindings(rng):
-            events.insert(rng.randint(0, len(events)) if rng.random() < .5 else 0, ("ns", prefix, iri))
+        binds = workloads.bindings(rng, shared_iri=True)
+        if binds and rng.random() < .4:
+            # the same prefix label declared again later with ANOTHER namespace (what a stream of several sinks holds)
+            binds.append((binds[0][0], rng.choice(["http://ex.org/redeclared/", "urn:redeclared:", binds[-1][1] + "x/"])))
+        at = 0
+        for prefix, iri in binds:
+            at = rng.randint(at, len(events)) if rng.random() < .5 else at        # declaration order is kept
+            events.insert(at, ("ns", prefix, iri))
+            at += 1
     has_ns = any(e[0] == "ns" for e in events)
     sizes = refenc.sizes_for(rng, events, phys)
     options = refenc.make_options(rng, phys, sizes, has_ns)
